@@ -1,7 +1,11 @@
 """C07 -- routing: is_supported_file == get_extractor succeeds; extension decides.
 
 Functions under contract: router._file_type_from_extension, _get_extractor,
-is_supported_file, get_extractor; mime_types.is_supported_mime_type.
+is_supported_file, get_extractor; mime_types.is_supported_mime_type; read_file;
+archive_extractor._is_supported_file_cached, _get_file_extractor_cached,
+_should_skip_file, _process_archive_entry (+ dataflow on the three member loops);
+data_types.EmailContent.iterate_supported_attachments (EXTRA `attachments_site`,
+invariant shared with contracts/C16.py).
 `os.path.splitext` and `mimetypes.guess_type` are uninterpreted (E, M): the
 proofs hold for *every* MIME database and every splitext satisfying axioms
 A1-A3 (A5 is used only by the alias lemma).  `str.lower` is uninterpreted: both
@@ -229,6 +233,8 @@ def contracts(reg):
         note="read_file reaches exactly the extractor get_extractor selects for the caller's path",
     ))
 
+    out.extend(archive_contracts(ge_returns_for))
+
     def mime_spec(c):
         MIMES = tables()[3]
         m = c.args["mime_type"]
@@ -244,8 +250,98 @@ def contracts(reg):
     return out
 
 
+# ---- archive members: selection and dispatch go through the router ----------------------------
+ARCH = "sharepoint2text/parsing/extractors/archive_extractor.py"
+
+
+def sup_term(s_term, repo=None):
+    """is_supported_file(s) as specified: extension decision or MIME fallback on lower(s)."""
+    p = LOWER(s_term)
+    is_none, _ = ft_spec(p, repo)
+    return z3.Or(z3.Not(is_none), mime_ok(p, repo))
+
+
+def ge_raises_term(s_term, repo=None):
+    p = LOWER(s_term)
+    is_none, _ = ft_spec(p, repo)
+    return z3.And(is_none, z3.Not(mime_ok(p, repo)))
+
+
+def nested_exts(repo=None):
+    return sorted(loader.module(ARCH, repo).literal("NESTED_ARCHIVE_EXTENSIONS"))
+
+
+def skip_term(f, b, repo=None):
+    """_should_skip_file(filename, basename): a member is selected exactly when the router supports its base name, apart from
+    the three documented filters (hidden base name, macOS resource fork directory, nested archive)."""
+    return z3.Or(z3.PrefixOf(z3.StringVal("."), b), z3.PrefixOf(z3.StringVal("__MACOSX/"), f), z3.Not(sup_term(b, repo)),
+                 z3.Or([z3.SuffixOf(z3.StringVal(e), LOWER(b)) for e in nested_exts(repo)]))
+
+
+def archive_contracts(ge_returns_for):
+    """The lru_cache wrappers are the router's functions (PY-MEMO: a cache in front of a deterministic function is
+    transparent; C15 owns cache soundness); member selection and member dispatch are stated against the router's specs."""
+    out = []
+    out.append(FnContract(
+        target=f"{ARCH}::_is_supported_file_cached", params=[("filename", p_str())],
+        returns=lambda c: VBool(sup_term(c.args["filename"].t)), raises=[],
+        note="archive member support check == router.is_supported_file(name) (extension tables, then MIME fallback)"))
+    out.append(FnContract(
+        target=f"{ARCH}::_get_file_extractor_cached", params=[("filename", p_str())],
+        returns=lambda c: ge_returns_for(c.args["filename"].t),
+        ensures=[("returns-only-when-supported", lambda c: z3.Not(ge_raises_term(c.args["filename"].t)))],
+        raises=[Raises(NOTSUP, when=lambda c: ge_raises_term(c.args["filename"].t))],
+        note="archive member extractor == router.get_extractor(name)"))
+    out.append(FnContract(
+        target=f"{ARCH}::_should_skip_file", params=[("filename", p_str()), ("basename", p_str())],
+        returns=lambda c: VBool(skip_term(c.args["filename"].t, c.args["basename"].t)), raises=[],
+        note="member selected <=> is_supported_file(basename) and not hidden / __MACOSX / nested archive"))
+
+    def pe_dispatch(c):
+        d = c.st.ghost.get("dispatch", ())
+        kws = c.st.ghost.get("dispatch_kw", ())
+        if len(d) == 0:
+            return z3.BoolVal(True)
+        if len(d) != 1 or len(kws) != 1:
+            return z3.BoolVal(False)
+        ext, args = d[0]
+        kw = kws[0]
+        if len(args) != 1 or set(kw) != {"path"} or not isinstance(kw["path"], VStr):
+            return z3.BoolVal(False)
+        bn = c.args["basename"].t
+        cands = [z3.And(cond, ops.eq_term(ext, val)) for (cond, val) in ge_returns_for(bn)]
+        fn, ap = c.args["filename"].t, c.args["archive_path"]
+        if ap is NONE:
+            want = fn
+        else:
+            want = z3.If(z3.Length(ap.t) == 0, fn, z3.Concat(ap.t, z3.StringVal("!/"), fn))
+        return z3.And(z3.Or(cands), kw["path"].t == want)
+
+    from pyvc.verify import p_unk
+    out.append(FnContract(
+        target=f"{ARCH}::_process_archive_entry",
+        params=[("filename", p_str()), ("file_data", p_unk()), ("archive_path", p_opt(p_str())), ("basename", p_str())],
+        generator=True, raises=[],
+        ensures=[("at-most-one-dispatch-to-get_extractor(basename)-with-path=archive!/member", pe_dispatch)],
+        note="an archive member is handed to exactly the extractor the router gives for its base name"))
+    return out
+
+
+EXECUTOR_KW = {f"{ARCH}::_process_archive_entry": {"abstract": True, "inline_calls": False}}
+
+
+_LEMMAS = {}
+
+
 def lemmas():
-    """Spec-level lemmas over the verified contracts."""
+    """Spec-level lemmas over the verified contracts (built once per process and tree: every lemma job asks for the whole list)."""
+    key = loader.REPO
+    if key not in _LEMMAS:
+        _LEMMAS[key] = _lemmas()
+    return _LEMMAS[key]
+
+
+def _lemmas():
     REG, ALI, COMP, MIMES = tables()
     out = []
     p = z3.String("p!lem")
@@ -285,6 +381,19 @@ def lemmas():
         pe = z3.Concat(s, z3.StringVal(k))
         ne, ve = ft_spec(pe)
         out.append((f"C07/router.py::spec/lemma#compound-routes{k}", [splitext_axioms(pe)], z3.And(z3.Not(ne), ve == z3.StringVal(v))))
+    # archive members: a member the skip rule selects has an extractor (get_extractor(basename) cannot raise for it), and
+    # selection differs from is_supported_file(basename) only by the three documented filters
+    f, b = z3.String("f!lem"), z3.String("b!lem")
+    out.append(("C07/archive_extractor.py::spec/lemma#selected-member-has-an-extractor", [splitext_axioms(LOWER(b))],
+                z3.Implies(z3.Not(skip_term(f, b)), z3.Not(ge_raises_term(b)))))
+    out.append(("C07/archive_extractor.py::spec/lemma#unsupported-member-is-never-selected", [splitext_axioms(LOWER(b))],
+                z3.Implies(z3.Not(sup_term(b)), skip_term(f, b))))
+    # attachments: get_extractor on the constant MIME-fallback paths "attachment.<type>" (hypothesis of the attachment site,
+    # contracts/C16.py::fallback_facts), from this pack's contract with the real values of lower / splitext on the constants
+    from contracts import C16
+    for (oid, hyps, goal) in C16.lemmas():
+        if "#mime-fallback-routes." in oid:
+            out.append((oid.replace("C16/", "C07/", 1), hyps, goal))
     return out
 
 
@@ -305,7 +414,10 @@ TRUSTED = ["os.path.splitext axioms A1-A3 (+A5 instances in alias/extension lemm
            "importlib.import_module succeeds for registry modules"]
 ASSUMED_MODELS = ["os.path.splitext (uninterpreted, axioms A1-A3)", "mimetypes.guess_type (uninterpreted: any MIME database)",
                   "str.lower (uninterpreted)", "importlib.import_module + getattr (function identity = (module, name))"]
-ASSUMPTIONS = ["PY-STR: str as sequence of code points (z3 String)", "PY-EXC", "logger calls dropped (PY-LOG)"]
+ASSUMPTIONS = ["PY-STR: str as sequence of code points (z3 String)", "PY-EXC", "logger calls dropped (PY-LOG)",
+               "PY-MEMO: functools.lru_cache in front of a deterministic function is transparent (decorators are not executed); "
+               "the MIME database does not change between a member's selection and its dispatch (cache soundness: C15)",
+               "extractor identity = (module, function name) resolved by importlib at call time"]
 
 
 # ------------------------------------------------------------ policy / tables --
@@ -399,36 +511,267 @@ def policy(repo, tier):
         ok = len(uses) == 1 and len(stores) == 1 and len(uses[0].args) == 2 and _ast.unparse(uses[0].args[1]) == "str(path)"
     P("C07/__init__.py::read_file/call-site#dispatches-through-get_extractor(str(path))", ok)
     fns.append(dict(init.fn_info("read_file"), obligations=1))
-    arch = loader.module("sharepoint2text/parsing/extractors/archive_extractor.py", repo)
-    ok = True
-    why = []
-    f1, f2, f0 = arch.functions.get("_is_supported_file_cached"), arch.functions.get("_get_file_extractor_cached"), arch.functions.get("_get_router_functions")
-    if not (f1 and f2 and f0):
-        ok = False
-    else:
-        imp = [n for n in _ast.walk(f0) if isinstance(n, _ast.ImportFrom)]
-        ok = ok and len(imp) == 1 and imp[0].module == "sharepoint2text.parsing.router" and [a.name for a in imp[0].names] == ["get_extractor", "is_supported_file"]
-        ret = [n for n in _ast.walk(f0) if isinstance(n, _ast.Return)]
-        ok = ok and len(ret) == 1 and _ast.unparse(ret[0].value) in ("(is_supported_file, get_extractor)", "is_supported_file, get_extractor")
-        r1 = [n for n in _ast.walk(f1) if isinstance(n, _ast.Return)]
-        ok = ok and len(r1) == 1 and _ast.unparse(r1[0].value) == "is_supported_file(filename)" and "is_supported_file, _ = _get_router_functions()" in arch.segment(f1)
-        r2 = [n for n in _ast.walk(f2) if isinstance(n, _ast.Return)]
-        ok = ok and len(r2) == 1 and _ast.unparse(r2[0].value) == "get_extractor(filename)" and "_, get_extractor = _get_router_functions()" in arch.segment(f2)
-        fns.append(dict(arch.fn_info("_get_file_extractor_cached"), obligations=1))
-    P("C07/archive_extractor.py::cached-router-wrappers/call-site#members-dispatch-through-router", ok)
-    dt = loader.module("sharepoint2text/parsing/extractors/data_types.py", repo)
-    att = dt.functions.get("EmailContent.iterate_supported_attachments")
-    ok = att is not None
-    if ok:
-        ges = [n for n in _ast.walk(att) if isinstance(n, _ast.Call) and dotted(n.func) == "get_extractor"]
-        imps = [n for n in _ast.walk(att) if isinstance(n, _ast.ImportFrom) and n.module == "sharepoint2text.parsing.router"]
-        args = sorted(_ast.unparse(g.args[0]) for g in ges)
-        ok = len(imps) == 1 and args == ["attachment.filename", "f'attachment.{file_type}'"]
-        fns.append(dict(dt.fn_info("EmailContent.iterate_supported_attachments"), obligations=1))
-    P("C07/data_types.py::EmailContent.iterate_supported_attachments/call-site#attachments-dispatch-through-router", ok)
+    obls.extend(member_sites(repo, fns))
+    obls.extend(table_policies(repo))
     return {"obligations": obls, "functions": fns}
 
 
-EXTRA = [policy]
+ROUTING_TABLES = ("_EXTRACTOR_REGISTRY", "_EXTENSION_ALIASES", "_COMPOUND_EXTENSIONS", "_SUPPORTED_EXTENSIONS")
+MUTATORS = ("update", "pop", "popitem", "setdefault", "clear", "add", "discard", "remove", "__setitem__", "__delitem__", "__ior__")
+
+
+def table_policies(repo):
+    """Package-wide premises of the table-based proofs (the specs read the *literals* of the routing tables): each table is
+    bound exactly once, at module level, and nothing in the package stores into it, deletes from it or calls a mutating method
+    on it; and no module other than the router takes a routing decision from the tables (a second decision procedure next to
+    is_supported_file / get_extractor is how dispatch sites drift away from the router).  MIME_TYPE_MAPPING is read outside
+    the router only by mime_types.is_supported_mime_type and by the attachment site that is under contract."""
+    import ast as _ast
+    from pyvc.flow import ground_obligation
+    out = []
+    bad_mut, bad_ref = [], []
+    homes = {ROUTER: set(ROUTING_TABLES), MIME: {"MIME_TYPE_MAPPING"}}
+    allowed_mime_readers = {(MIME, "is_supported_mime_type"),
+                            ("sharepoint2text/parsing/extractors/data_types.py", "EmailContent.iterate_supported_attachments")}
+    n_files = 0
+    for rel in loader.all_package_files(repo):
+        try:
+            m = loader.module(rel, repo)
+        except SyntaxError:
+            continue
+        n_files += 1
+        tracked = set(homes.get(rel, ()))
+        alias = {}                                        # local name -> table name
+        for local, origin in m.imports.items():
+            for home, tabs in homes.items():
+                modname = home[:-3].replace("/", ".")
+                for t in tabs:
+                    if origin == f"{modname}.{t}":
+                        alias[local] = t
+        for t in tracked:
+            alias.setdefault(t, t)
+        mod_aliases = {local for local, origin in m.imports.items()
+                       if origin in ("sharepoint2text.parsing.router", "sharepoint2text.parsing.mime_types",
+                                     "sharepoint2text.parsing.router.router", "sharepoint2text.parsing")}
+
+        def table_of(e):
+            if isinstance(e, _ast.Name) and e.id in alias:
+                return alias[e.id]
+            if isinstance(e, _ast.Attribute) and e.attr in ROUTING_TABLES + ("MIME_TYPE_MAPPING",):
+                return e.attr
+            return None
+
+        owner = {}
+        for q, f in m.functions.items():
+            for n in _ast.walk(f):
+                owner.setdefault(id(n), q) if "<locals>" not in q else None
+        for n in _ast.walk(m.tree):
+            # bindings
+            if isinstance(n, (_ast.Assign, _ast.AnnAssign, _ast.AugAssign, _ast.Delete, _ast.For, _ast.With, _ast.NamedExpr)):
+                tgts = n.targets if isinstance(n, (_ast.Assign, _ast.Delete)) else [getattr(n, "target", None)] if not isinstance(n, _ast.With) else \
+                    [i.optional_vars for i in n.items]
+                for tg in tgts:
+                    for x in _ast.walk(tg) if tg is not None else ():
+                        if isinstance(x, (_ast.Subscript, _ast.Attribute)) and isinstance(x.ctx, (_ast.Store, _ast.Del)) and table_of(x.value):
+                            bad_mut.append(f"{rel}:{n.lineno} store into {table_of(x.value)}")
+                        if isinstance(x, _ast.Name) and isinstance(x.ctx, (_ast.Store, _ast.Del)) and x.id in alias and x.id in tracked:
+                            top = n in m.tree.body and isinstance(n, (_ast.Assign, _ast.AnnAssign))
+                            if not top:
+                                bad_mut.append(f"{rel}:{n.lineno} rebinds {x.id}")
+            if isinstance(n, _ast.Global) and any(g in tracked for g in n.names):
+                bad_mut.append(f"{rel}:{n.lineno} global {n.names}")
+            if isinstance(n, _ast.Call) and isinstance(n.func, _ast.Attribute) and n.func.attr in MUTATORS and table_of(n.func.value):
+                bad_mut.append(f"{rel}:{n.lineno} {table_of(n.func.value)}.{n.func.attr}()")
+            # references outside the home module
+            t = table_of(n) if isinstance(n, (_ast.Name, _ast.Attribute)) else None
+            if t and isinstance(getattr(n, "ctx", None), _ast.Load):
+                if t in ROUTING_TABLES and rel != ROUTER:
+                    bad_ref.append(f"{rel}:{n.lineno} reads {t}")
+                if t == "MIME_TYPE_MAPPING" and rel != ROUTER and (rel, owner.get(id(n))) not in allowed_mime_readers \
+                        and not (rel == MIME and owner.get(id(n)) is None):
+                    bad_ref.append(f"{rel}:{n.lineno} reads MIME_TYPE_MAPPING in {owner.get(id(n))}")
+            if isinstance(n, _ast.ImportFrom) and n.module and rel != ROUTER:
+                for a in n.names:
+                    if a.name in ROUTING_TABLES:
+                        bad_ref.append(f"{rel}:{n.lineno} imports {a.name}")
+        for t in tracked:
+            tops = [x for x in m.tree.body if isinstance(x, (_ast.Assign, _ast.AnnAssign))
+                    and any(isinstance(y, _ast.Name) and y.id == t for tg in (x.targets if isinstance(x, _ast.Assign) else [x.target]) for y in _ast.walk(tg))]
+            if len(tops) != 1:
+                bad_mut.append(f"{rel}: {t} bound {len(tops)} times at module level")
+    out.append(ground_obligation("C07/package::tables/policy#routing-tables-bound-once-and-never-mutated", not bad_mut and n_files > 20,
+                                 "; ".join(bad_mut) or f"{n_files} package files scanned", "package", definite=False))
+    out.append(ground_obligation("C07/package::tables/policy#no-routing-decision-from-the-tables-outside-the-router", not bad_ref and n_files > 20,
+                                 "; ".join(sorted(set(bad_ref))) or f"{n_files} package files scanned", "package", definite=False))
+    return out
+
+
+def member_sites(repo, fns):
+    """Callers of the member contracts (dataflow on the real AST, one obligation per archive format): the base name the skip
+    rule tests and the base name the member is dispatched under are both os.path.basename(<member name>) of the same
+    member, and a member is dispatched only after `_should_skip_file(name, base)` returned False for exactly that pair
+    (directly, or through the work list the selection loop fills).  An unrecognised shape is UNDECIDED (definite=False): the
+    native archive replay then decides."""
+    import ast as _ast
+    from pyvc.flow import MustFacts, dotted, ground_obligation
+    arch = loader.module(ARCH, repo)
+    out = []
+
+    def canon(call):
+        d = dotted(call.func)
+        head, _, rest = d.partition(".")
+        origin = arch.imports.get(head)
+        return (origin + ("." + rest if rest else "")) if origin else d
+
+    def names(args):
+        return [a.id if isinstance(a, _ast.Name) else None for a in args]
+
+    for q in ("_extract_from_zip_optimized", "_extract_from_tar_optimized", "_extract_from_7z_optimized"):
+        oid = f"C07/archive_extractor.py::{q}/call-site#skip-rule-and-dispatch-see-the-same-member-name"
+        f = arch.functions.get(q)
+        if f is None:
+            out.append(ground_obligation(oid, False, "function missing", ARCH, definite=False))
+            continue
+        why = []
+        skips = [n for n in _ast.walk(f) if isinstance(n, _ast.Call) and dotted(n.func) == "_should_skip_file"]
+        if len(skips) != 1 or len(skips[0].args) != 2 or skips[0].keywords or None in names(skips[0].args):
+            why.append(f"{len(skips)} skip-rule calls / arguments are not plain names")
+            out.append(ground_obligation(oid, False, "; ".join(why), ARCH, definite=False))
+            continue
+        fn_v, bn_v = names(skips[0].args)
+        loop = [l for l in _ast.walk(f) if isinstance(l, _ast.For) and any(x is skips[0] for x in _ast.walk(l))]
+        loop = loop[-1] if loop else None            # innermost enclosing loop = the member loop
+        if loop is None:
+            why.append("skip rule not inside a member loop")
+        else:
+            st_bn = [n for n in _ast.walk(loop) if isinstance(n, _ast.Assign) and any(isinstance(t, _ast.Name) and t.id == bn_v for t in _ast.walk(n))
+                     and any(isinstance(t, _ast.Name) and isinstance(t.ctx, _ast.Store) and t.id == bn_v for tt in n.targets for t in _ast.walk(tt))]
+            all_bn = [n for n in _ast.walk(loop) if isinstance(n, _ast.Name) and isinstance(n.ctx, _ast.Store) and n.id == bn_v]
+            all_fn = [n for n in _ast.walk(loop) if isinstance(n, _ast.Name) and isinstance(n.ctx, _ast.Store) and n.id == fn_v]
+            if not (len(st_bn) == 1 and len(all_bn) == 1 and isinstance(st_bn[0].value, _ast.Call) and canon(st_bn[0].value) == "os.path.basename"
+                    and names(st_bn[0].value.args) == [fn_v] and not st_bn[0].value.keywords and st_bn[0].lineno < skips[0].lineno):
+                why.append(f"`{bn_v}` is not the single assignment os.path.basename({fn_v}) before the skip rule")
+            if len(all_fn) != 1 or all_fn[0].lineno > skips[0].lineno:
+                why.append(f"`{fn_v}` is assigned {len(all_fn)} times in the member loop")
+        # dominance: not skipped(fn_v, bn_v) holds at the dispatch / at the append to the work list
+        skip_src = _ast.unparse(skips[0])
+        def gen_cond(test, branch, skip_src=skip_src):
+            t = _ast.unparse(test)
+            if (t == skip_src and branch is False) or (t == f"not {skip_src}" and branch is True):
+                return ["selected"]
+            return []
+        worklists = {}
+        in_loop = set(id(x) for x in _ast.walk(loop)) if loop is not None else set()
+        def need(n, fn_v=fn_v, bn_v=bn_v, worklists=worklists, in_loop=in_loop):
+            if not isinstance(n, _ast.Call) or id(n) not in in_loop:
+                return []
+            d = dotted(n.func)
+            if d == "_process_archive_entry" and names(n.args)[:1] == [fn_v] and names(n.args)[3:4] == [bn_v]:
+                return [("selected", f"line {n.lineno}: dispatch of ({fn_v}, {bn_v})")]
+            if d.endswith(".append") and len(n.args) == 1 and isinstance(n.args[0], _ast.Tuple) and fn_v in names(n.args[0].elts):
+                worklists.setdefault(d[:-7], []).append(n)
+                return [("selected", f"line {n.lineno}: append to work list {d[:-7]}")]
+            return []
+        res = MustFacts(gen_cond=gen_cond, need=need, kill_names=lambda fact: [fn_v, bn_v]).run(f)
+        why += [r.desc + " not dominated by a False skip rule for that pair" for r in res if not r.ok]
+        n_disp = 0
+        consumers = [("_process_archive_entry", f)]
+        for call in [n for n in _ast.walk(f) if isinstance(n, _ast.Call) and dotted(n.func) == "_process_archive_entry"]:
+            n_disp += 1
+            a = names(call.args)
+            if call.keywords or len(a) != 4:
+                why.append(f"line {call.lineno}: dispatch arguments not positional")
+                continue
+            if loop is not None and any(x is call for x in _ast.walk(loop)):
+                if (a[0], a[3]) != (fn_v, bn_v):
+                    why.append(f"line {call.lineno}: dispatched as ({a[0]}, {a[3]}), skip rule tested ({fn_v}, {bn_v})")
+                continue
+            _worklist_use(_ast, f, call, worklists, fn_v, bn_v, why)
+        # 7z: the work list is handed to _process_7z_files_sequential, which dispatches per entry
+        for call in [n for n in _ast.walk(f) if isinstance(n, _ast.Call) and dotted(n.func) == "_process_7z_files_sequential"]:
+            g = arch.functions.get("_process_7z_files_sequential")
+            wl = names(call.args)[:1]
+            if g is None or not wl or wl[0] not in worklists or not g.args.args:
+                why.append(f"line {call.lineno}: sequential 7z processing not over the selection work list")
+                continue
+            param = g.args.args[0].arg
+            for c2 in [n for n in _ast.walk(g) if isinstance(n, _ast.Call) and dotted(n.func) == "_process_archive_entry"]:
+                n_disp += 1
+                if c2.keywords or len(c2.args) != 4:
+                    why.append(f"line {c2.lineno}: dispatch arguments not positional")
+                    continue
+                _worklist_use(_ast, g, c2, {param: worklists[wl[0]]}, fn_v, bn_v, why)
+            fns.append(dict(arch.fn_info("_process_7z_files_sequential"), obligations=1))
+        if n_disp == 0:
+            why.append("no member dispatch found")
+        for wl, apps in worklists.items():
+            stores = [n for n in _ast.walk(f) if isinstance(n, _ast.Name) and n.id == wl and isinstance(n.ctx, _ast.Store)]
+            if len(stores) != 1:
+                why.append(f"work list {wl} assigned {len(stores)} times")
+        out.append(ground_obligation(oid, not why, "; ".join(why) or f"{n_disp} dispatch site(s)", ARCH, definite=False))
+        fns.append(dict(arch.fn_info(q), obligations=1))
+    return out
+
+
+def _worklist_use(_ast, f, call, worklists, fn_v, bn_v, why):
+    """`call` = _process_archive_entry(A, _, _, B) inside `for (.., A, .., B, ..) in <work list>`: A and B are unpacked from the
+    tuple positions at which every append stored the tested (name, base name) pair."""
+    from pyvc.flow import dotted
+    a = [x.id if isinstance(x, _ast.Name) else None for x in call.args]
+    loops = [l for l in _ast.walk(f) if isinstance(l, _ast.For) and any(x is call for x in _ast.walk(l))
+             and isinstance(l.iter, _ast.Name) and l.iter.id in worklists and isinstance(l.target, _ast.Tuple)]
+    if not loops:
+        why.append(f"line {call.lineno}: dispatch outside a loop over the selection work list")
+        return
+    l = loops[-1]
+    tnames = [t.id if isinstance(t, _ast.Name) else None for t in l.target.elts]
+    rebound = [n for n in _ast.walk(l) if isinstance(n, _ast.Name) and isinstance(n.ctx, _ast.Store) and n.id in (a[0], a[3]) and n not in l.target.elts]
+    if a[0] not in tnames or a[3] not in tnames or rebound:
+        why.append(f"line {call.lineno}: dispatch arguments are not the loop's own tuple fields")
+        return
+    i_fn, i_bn = tnames.index(a[0]), tnames.index(a[3])
+    for app in worklists[l.iter.id]:
+        el = [x.id if isinstance(x, _ast.Name) else None for x in app.args[0].elts]
+        if len(el) != len(tnames) or el[i_fn] != fn_v or el[i_bn] != bn_v:
+            why.append(f"line {call.lineno}: tuple positions ({i_fn},{i_bn}) of the work list do not hold the tested ({fn_v}, {bn_v})")
+
+
+def attachments_site(repo, tier):
+    """EmailContent.iterate_supported_attachments under a real contract: the function is symbolically executed by the engine
+    with the loop invariant written for the e-mail pack (contracts/C16.py::isa_contract -- per attachment the extractor is
+    the one get_extractor gives for the attachment's *file name*; only when the router has none for the name, the registry
+    entry of the declared MIME type; a per-call cache may only hold the router's own answers).  C07 owns the two conjuncts
+    about extractor identity (`dispatch`, `cache`); stream handling stays C16's.  The facts about get_extractor on the
+    constant fallback paths "attachment.<type>" are the lemmas `mime-fallback-routes.*` below (proved from C07's contract)."""
+    from pyvc import verify
+    from pyvc.contracts import Registry
+    from pyvc.exctypes import Universe
+    from contracts import C16
+    target = f"{C16.DT}::EmailContent.iterate_supported_attachments"
+    short = "C07/data_types.py::EmailContent.iterate_supported_attachments"
+    reg = Registry()
+    cs = C16.contracts(reg)
+    for c in cs:
+        reg.add(c)
+    isa = [c for c in cs if c.target == target]
+    unknown = lambda why: {"id": f"{short}/out-of-subset", "kind": "out-of-subset", "status": "unknown", "vcs": 0, "seconds": 0.0,
+                           "backends": {}, "witness": None, "reason": why[:300], "function": target, "loc": ""}
+    if not isa:
+        return {"obligations": [unknown("contract missing")], "functions": []}
+    rep = verify.run_contract("C07", isa[0], reg, Universe(repo), repo=repo, timeout_ms=60000 if tier == "thorough" else None,
+                              executor_cls=C16.EXECUTOR, executor_kw=C16.EXECUTOR_KW.get(target))
+    if rep.error == "contract-target-missing":
+        return {"obligations": [], "functions": [], "undecided": [{"obligation": target, "why": "contract-target-missing"}]}
+    if rep.error or rep.out_of_subset:
+        return {"obligations": [unknown(("ENGINE-ERROR " + rep.error) if rep.error else ("OUT-OF-SUBSET " + rep.out_of_subset))], "functions": []}
+    keep = [o for o in rep.obligations if o["id"].endswith((".dispatch", ".cache"))]
+    for o in keep:
+        o["function"] = target
+    if not keep:
+        keep = [unknown("no dispatch obligation generated")]
+    return {"obligations": keep, "functions": [dict(rep.info, paths=rep.paths, obligations=len(keep))]}
+
+
+EXTRA = [policy, attachments_site]
 
 REPLAY_UNKNOWN = True    # undecided / out-of-subset items are searched natively (replay) before being reported UNDECIDED
